@@ -282,6 +282,11 @@ def solve_stream(c):
     return c.stream("xsolve", ["xsolve", c.seed, n], "solve")
 
 
+def radau_stream(c):
+    """X-radau: the control model of Radau replayed on the control trace of real runs (hook verif_hooks::trace)"""
+    return c.stream("xradau", ["xradau", c.seed, 150 if c.tier == "quick" else 3000], "radau")
+
+
 def only_keys(c, prefixes):
     """keep monitor violations whose finding key starts with one of `prefixes` (other properties own the rest)"""
     c.violations = [v for v in c.violations if v["kind"] != "implementation-vs-oracle"
@@ -289,13 +294,14 @@ def only_keys(c, prefixes):
 
 
 C03_THEOREMS = ["Ctl.hAdjust_lands", "Ctl.hIter_success_at_xend", "Ctl.hLoop_success_at_xend", "Ctl.dopri5Params_guard",
-                "Ctl.dop853Params_guard", "Ctl.hIter_cases", "Ctl.hSolve_protocol", "Ctl.rk23Adjust_lands", "Ctl.rk23Loop_success_at_xend", "Ctl.rk4Loop_success_at_xend", "rowsum_rk4", "rowsum_rk23", "rowsum_dopri5", "rowsum_dop853"]
+                "Ctl.dop853Params_guard", "Ctl.hIter_cases", "Ctl.hSolve_protocol", "Ctl.rk23Adjust_lands", "Ctl.rk23Loop_success_at_xend", "Ctl.rk4Loop_success_at_xend", "RadauCtl.pass_land", "RadauCtl.run_success_at_xend", "RadauCtl.start_land", "rowsum_rk4", "rowsum_rk23", "rowsum_dopri5", "rowsum_dop853"]
 
 
 def c03(c):
     common_proof(c, "IvpModel.Props.C03", C03_THEOREMS)
     if c.build_harness() and c.build_driver():
         solve_stream(c)
+        radau_stream(c)
         generic_monitor(c, "interval_check", ["interval-check", c.seed, 250 if c.tier == "quick" else 5000], "iv")
         generic_monitor(c, "protocol_check", ["protocol-check", c.seed, 120 if c.tier == "quick" else 3000], "pr")
     only_keys(c, ("c03",))
@@ -313,6 +319,7 @@ def c04(c):
     common_proof(c, "IvpModel.Props.C04", C04_THEOREMS)
     if c.build_harness() and c.build_driver():
         solve_stream(c)
+        radau_stream(c)
         generic_monitor(c, "hostile_check", ["hostile-check", c.seed, 60 if c.tier == "quick" else 1500], "hs", timeout=3000)
         generic_monitor(c, "interval_check", ["interval-check", c.seed, 120 if c.tier == "quick" else 2000], "iv")
     only_keys(c, ("c04",))
@@ -329,6 +336,7 @@ def c11(c):
     common_proof(c, "IvpModel.Props.C11", C11_THEOREMS)
     if c.build_harness() and c.build_driver():
         solve_stream(c)
+        radau_stream(c)
         generic_monitor(c, "protocol_check", ["protocol-check", c.seed, 200 if c.tier == "quick" else 4000], "pr")
         generic_monitor(c, "options_check", ["options-check", c.seed, 60 if c.tier == "quick" else 1500], "op")
     only_keys(c, ("c11",))
@@ -358,7 +366,7 @@ def c12(c):
     c.partial = ["RK23/RK4 skeletons: observer independence not restated (same `afterCb`; co-simulated); Radau/BDF: monitor only"]
 
 
-C18_THEOREMS = ["Ctl.Meter.counted_bump", "Ctl.Meter.counted_cb", "Ctl.Meter.counted_refresh", "Ctl.afterCb_counted",
+C18_THEOREMS = ["RadauCtl.newtonLoop_ode", "RadauCtl.pass_ode", "Ctl.Meter.counted_bump", "Ctl.Meter.counted_cb", "Ctl.Meter.counted_refresh", "Ctl.afterCb_counted",
                 "Ctl.dopri5Kernel_ok", "Ctl.dop853Kernel_ok", "Ctl.hinit_calls", "Ctl.rk23_stages_calls", "Ctl.rk4_stages_calls",
                 "Ctl.rk4_update_calls", "Ctl.hSolve_counted", "Ctl.C18_dopri5", "Ctl.C18_dop853", "Ctl.rk23Solve_inv", "Ctl.rk4Solve_inv"]
 
@@ -367,6 +375,7 @@ def c18(c):
     common_proof(c, "IvpModel.Props.C18", C18_THEOREMS)
     if c.build_harness() and c.build_driver():
         solve_stream(c)
+        radau_stream(c)
         generic_monitor(c, "interval_check", ["interval-check", c.seed, 250 if c.tier == "quick" else 5000], "iv")
         generic_monitor(c, "protocol_check", ["protocol-check", c.seed, 100 if c.tier == "quick" else 2000], "pr")
     only_keys(c, ("c18",))
@@ -382,6 +391,7 @@ def c19(c):
     common_proof(c, "IvpModel.Props.C19", C19_THEOREMS)
     if c.build_harness() and c.build_driver():
         solve_stream(c)
+        radau_stream(c)
         generic_monitor(c, "protocol_check", ["protocol-check", c.seed, 250 if c.tier == "quick" else 5000], "pr")
     only_keys(c, ("c19",))
     c.partial = ["'unchanged state is a no-op' and 'doubling doubles everything' are monitored (protocol-check), not proved; open findings: BDF restart, Radau Newton start",
@@ -589,12 +599,13 @@ def c01(c):
 
 
 # ---------------------------------------------------------------------------------------------- C14 (stiff)
-C14_THEOREMS = ["Radau14.c14_radau_constants", "c14_pade23_E", "c14_pade23_negative_real_axis", "c14_pade23_damps"]
+C14_THEOREMS = ["RadauCtl.pass_singular", "RadauCtl.failure_cases", "Radau14.c14_radau_constants", "c14_pade23_E", "c14_pade23_negative_real_axis", "c14_pade23_damps"]
 
 
 def c14(c):
     common_proof(c, "IvpModel.Props.C14", C14_THEOREMS)
     if c.build_harness() and c.build_driver():
+        radau_stream(c)
         generic_monitor(c, "stiff_check", ["stiff-check", c.seed, 30 if c.tier == "quick" else 600], "st", timeout=3000)
         generic_monitor(c, "interval_check", ["interval-check", c.seed, 120 if c.tier == "quick" else 2000], "iv")
     only_keys(c, ("c14", "c04-hang"))
